@@ -457,6 +457,46 @@ def run_actions(actions, phase, ctx):
             warnings.filterwarnings('ignore', message=a.get('msg', 'vw-x'))
             if a.get('simple'):
                 warnings.simplefilter(a['simple'])
+        elif do == 'use_hooks':
+            # a test that uses the interpreter's trace / profile hooks
+            # itself, the way trace.Trace.runfunc, bdb.Bdb.runcall,
+            # pdb.runcall or profile.Profile.runcall do: install, call,
+            # take away again ('none': with settrace(None), as the stdlib
+            # does; 'saved': by putting back what was there before)
+            import threading as _th
+
+            def _tf(frame, event, arg):
+                return None
+
+            def _pf(frame, event, arg):
+                return None
+
+            def _callee():
+                return len(str(a))
+
+            for which in a.get('which', ['trace']):
+                if which == 'trace':
+                    get, set_ = sys.gettrace, sys.settrace
+                elif which == 'profile':
+                    get, set_ = sys.getprofile, sys.setprofile
+                elif which == 'threading_trace':
+                    get = getattr(_th, 'gettrace', lambda: None)
+                    set_ = _th.settrace
+                else:
+                    get = getattr(_th, 'getprofile', lambda: None)
+                    set_ = _th.setprofile
+                saved = get()
+                set_(_pf if 'profile' in which else _tf)
+                try:
+                    _callee()
+                finally:
+                    # (sys.settrace is looked up again: the runner may have
+                    # put a function of its own there)
+                    if which == 'trace':
+                        set_ = sys.settrace
+                    set_(saved if a.get('how') == 'saved' else None)
+            emit('hooks.used', ctx=ctx, which=a.get('which'),
+                 how=a.get('how'))
         elif do == 'probe_state':
             emit('probe.state', where=phase, ctx=ctx, **probe_state())
         elif do == 'raise_base':
